@@ -42,13 +42,25 @@ func valueInst(text string, cfg docCfg) *vm.Instance {
 		}
 	}
 	return &vm.Instance{ID: text + " @" + cfg.tag(), Harness: "H_value", Params: p,
-		Extra: &vm.OracleExtra{Exprs: map[string]oracle.Expr{"expr": ast}}}
+		Extra: &vm.OracleExtra{Exprs: map[string]oracle.Expr{"expr": ast, "reuse": ast}}}
+}
+
+// withValueReuse makes every k-th H_value instance evaluate a second time with the same
+// compiled expression.
+func withValueReuse(insts []*vm.Instance, k int) []*vm.Instance {
+	for i, in := range insts {
+		if in.Harness == "H_value" && i%k == 0 {
+			in.Params["reuse"] = "1"
+		}
+	}
+	return insts
 }
 
 func valueCanary(text, wrong string, cfg docCfg) *vm.Instance {
 	in := valueInst(text, cfg)
 	in.ID = "canary " + text + " vs " + wrong
-	in.Extra = &vm.OracleExtra{Exprs: map[string]oracle.Expr{"expr": oracle.BindHoles(oracle.MustParse(wrong))}}
+	w := oracle.BindHoles(oracle.MustParse(wrong))
+	in.Extra = &vm.OracleExtra{Exprs: map[string]oracle.Expr{"expr": w, "reuse": w}}
 	return in
 }
 
@@ -131,7 +143,7 @@ func buildC07(tier string, seed int64) *Family {
 		insts = append(insts, valueInst(x, cfg))
 	}
 	return &Family{
-		Instances: dedupInst(insts),
+		Instances: withValueReuse(dedupInst(insts), 2),
 		Canaries: []*vm.Instance{
 			valueCanary("a < 9001", "a <= 9001", cfg),
 			valueCanary("a = '#S1'", "a != '#S1'", cfg),
